@@ -64,13 +64,13 @@ impl<'r> Gen<'r> {
             T::Bool => (if self.rng.chance(1, 2) { "true" } else { "false" }).to_string(),
             T::Int => self
                 .rng
-                .pick(&["0", "1", "2", "3", "5", "7", "31", "32", "100", "255", "65535", "2147483647", "-1", "-7", "-2147483647", "1000000"])
+                .pick(&["0", "1", "2", "3", "5", "7", "31", "32", "100", "255", "65535", "2147483647", "-1", "-7", "-2147483647", "-2147483648", "1000000"])
                 .to_string(),
             T::Uint => self
                 .rng
                 .pick(&["0u", "1u", "2u", "7u", "31u", "33u", "4294967295u", "2147483648u", "3", "12", "65536u"])
                 .to_string(),
-            T::Float => self.rng.pick(&["1.0f", "2.5f", "-1.5f", "0.25f", "100.0f", "1", "3"]).to_string(),
+            T::Float => self.rng.pick(&["0.0f", "-0.0f", "1.0f", "2.5f", "-1.5f", "0.25f", "100.0f", "1", "3"]).to_string(),
             _ => "0".to_string(),
         }
     }
